@@ -824,6 +824,8 @@ _PENDING = []   # corpus cases, evaluated in one batch per operator at the start
 
 def _replay_cases(payload):
     v = payload.get('violation') or payload.get('first_disagreement') or payload
+    if isinstance(v, dict) and isinstance(v.get('cases'), list):     # a corpus entry listing several inputs
+        return [dict(c, seed=c.get('seed', 0) + i) for c in v['cases'] for i in range(2)]
     case = v.get('case') if isinstance(v, dict) else None
     if not case or 'op' not in case:
         return []
